@@ -84,6 +84,9 @@ def operations(tier):
         dict(name='cluster', text='clu', opts=[]),
         dict(name='other-parameters', text='nterm', opts=[], cfg=(0, 1, 1)),
         dict(name='other-cutoffs', text='clu2', opts=[], cfg_edit={'desolv_cutoff': '30.0', 'buried_cutoff': '22.0', 'coulomb_cutoff2': '12.0'}),
+        # the thresholds of the coupling analysis differ from the shipped ones (the analysis object is a module-level singleton)
+        dict(name='other-coupling-thresholds', text='clu', opts=['-d'], cfg_edit={'min_interaction_energy': '50.0', 'max_intrinsic_pka_diff': '0.1'}),
+        dict(name='other-coupling-thresholds-plain', text='clu', opts=[], cfg_edit={'min_interaction_energy': '50.0', 'max_intrinsic_pka_diff': '0.1'}),
         dict(name='protonate-all', text='tri', opts=['--protonate-all']),
         dict(name='chain-select', text='pair', opts=['-c', 'A']),
         dict(name='main-two-files', text='tri', opts=[], main=['pair', 'tri']),
